@@ -57,12 +57,17 @@ Results == {"ok", "closed", "cancelled", "other", "panic", "hang"}
 (*    any Close began cannot have seen it.                                 *)
 (***************************************************************************)
 NoPanicNoHang(res)      == res \notin {"panic", "hang"}
-AfterCloseClosed(op, pb, res) == (op \in LockOps /\ pb = 2) => res = "closed"
-ClosedOnlyIfCloseBegan(op, pe, res) == (res = "closed") => (op \in LockOps /\ pe >= 1)
+\* (Close itself is such a call since repair fb2d875: `if !i.open { return ErrorIndexClosed }`)
+AfterCloseClosed(op, pb, res) == (op \in LockOps \cup CloseOps /\ pb = 2) => res = "closed"
+ClosedOnlyIfCloseBegan(op, pe, res) == (res = "closed") => (op \in LockOps \cup CloseOps /\ pe >= 1)
 CancelledOnlyWithCtx(op, res, ctx) == (res = "cancelled") => (ctx /\ op \in {"search", "searchctx", "forcemerge"})
 FreeOpsNeverFail(op, res) == (op \in {"stats", "statsmap"}) => res = "ok"
 DictOpsSucceed(op, res) == (op \in DictOps) => res = "ok"
-FirstCloseOk(op, pb, res) == (op = "close" /\ pb = 0) => res = "ok"
+\* Close succeeds or reports the closed index (several goroutines may call it, also concurrently);
+\* exactly the Close that closes the index succeeds: none succeeds once one has returned
+\* (phaseBefore = the phase just before this return)
+CloseResult(op, res) == (op = "close") => res \in {"ok", "closed"}
+CloseOkOnce(op, phaseBefore, res) == (op = "close" /\ res = "ok") => phaseBefore < 2
 
 \* "A search whose context is cancelled returns an error ... and leaves the index usable":
 \*  - a search started with an already cancelled / expired context returns the context's error
@@ -79,7 +84,7 @@ ResAllowed(op, pb, pe, res, ctx) ==
     /\ CancelledOnlyWithCtx(op, res, ctx)
     /\ FreeOpsNeverFail(op, res)
     /\ DictOpsSucceed(op, res)
-    /\ FirstCloseOk(op, pb, res)
+    /\ CloseResult(op, res)
 
 (***************************************************************************)
 (* Lock-state observations. `wheld` = the closer is known to hold the      *)
